@@ -268,8 +268,7 @@ theorem locusParser_consumes (s : PS) (hs : Sorted s.rest.length s.stk) :
 theorem wp_clear_eq {Q} {s : PS} (k : Q (.ok ()) { s with stk := [] }) : WP clear Q s := k
 
 /-- a record that is returned has used up at least five bytes -/
-theorem genbankParser_consumes (reg : Registry) (s : PS) (hs : Sorted s.rest.length s.stk)
-    (hlen : s.rest.length < 10 ^ 9) :
+theorem genbankParser_consumes (reg : Registry) (s : PS) (hs : Sorted s.rest.length s.stk) :
     WP (genbankParser reg) (fun r s' => ∀ v, r = .ok v → s'.rest.length + 5 ≤ s.rest.length) s := by
   have hsafe := locusParser_safe _ _ _ s (Fr.init hs)
   have hdep := locusParser_depth s
@@ -294,21 +293,21 @@ theorem genbankParser_consumes (reg : Registry) (s : PS) (hs : Sorted s.rest.len
     · repeat wps_step
     · rename_i hcond
       have h0 : 0 ≤ l.length := by omega
-      have hrl := recordLoop_safeS (L := s.rest.length - 5) l.length l.depth h0 (by omega) (by omega)
+      have hrl := recordLoop_safeS (L := s.rest.length - 5) l.length l.depth h0 (by omega)
       repeat wps_step
 
 /-- the fuel `len(input) + 1` of the scan loop is adequate: every record read consumes input, so
 any two fuels above the number of bytes give the same result -/
 theorem parseAll_fuel : ∀ k k' (reg : Registry) (input : Bytes) (acc : List Record),
-    input.length < 10 ^ 9 → input.length < k → input.length < k' →
+    input.length < k → input.length < k' →
     parseAll reg k input acc = parseAll reg k' input acc
-  | 0, _, _, _, _, _, h, _ => absurd h (Nat.not_lt_zero _)
-  | _ + 1, 0, _, _, _, _, _, h => absurd h (Nat.not_lt_zero _)
-  | k + 1, k' + 1, reg, input, acc, hlen, hk, hk' => by
+  | 0, _, _, _, _, h, _ => absurd h (Nat.not_lt_zero _)
+  | _ + 1, 0, _, _, _, _, h => absurd h (Nat.not_lt_zero _)
+  | k + 1, k' + 1, reg, input, acc, hk, hk' => by
     unfold parseAll
     split
     · rfl
-    · have h := genbankParser_consumes reg ⟨input, []⟩ trivial hlen
+    · have h := genbankParser_consumes reg ⟨input, []⟩ trivial
       unfold WP at h
       rcases hrun : (genbankParser reg).run' ⟨input, []⟩ with ⟨r, s'⟩
       rw [hrun] at h
@@ -317,6 +316,6 @@ theorem parseAll_fuel : ∀ k k' (reg : Registry) (input : Bytes) (acc : List Re
       · dsimp only
         have := h _ rfl
         dsimp only at this
-        exact parseAll_fuel k k' reg' s'.rest (rec :: acc) (by omega) (by omega) (by omega)
+        exact parseAll_fuel k k' reg' s'.rest (rec :: acc) (by omega) (by omega)
 
 end Gts.GenBank
